@@ -542,7 +542,7 @@ def r19d(ctx):
 def r19e(ctx):
     """Column letters <-> numbers: the two conversions use the same base and inverse offsets."""
     repo = ctx.repo
-    ctx.rule("R19e", "alpha_to_digit and digit_to_alpha use one base (26) and inverse offsets", floor=4)
+    ctx.rule("R19e", "alpha_to_digit and digit_to_alpha use one base (26), inverse offsets and the same unbounded domain", floor=6)
     a2d = repo.func("utils.coordinates:alpha_to_digit")
     d2a = repo.func("utils.coordinates:digit_to_alpha")
 
@@ -572,6 +572,22 @@ def r19e(ctx):
     ctx.instance("R19e", f"{d2a.file}:{d2a.ident}", "1-based shift, 'A' + remainder, most significant letter first", ok=ok, nontrivial=True)
     if not ok:
         ctx.report("R19e", d2a, d2a.node, "digit_to_alpha offsets", "digit_to_alpha no longer shifts to 1-based, maps remainders to 'A'.. and prepends letters")
+    # same domain on both sides: the printer writes a name for every non-negative number (no upper bound), so the parser may refuse a name only for
+    # what it is made of, never for how long it is or how large the number gets (and the reverse)
+    for f in (a2d, d2a):
+        bounded = []
+        for st in walk_no_nested(f.node):
+            if isinstance(st, ast.Raise) or isinstance(st, ast.Return) and isinstance(st.value, ast.Constant) and st.value.value is None:
+                for t, _pol in structural_guards(st, stop=f.node):
+                    for x in ast.walk(t):
+                        if isinstance(x, ast.Call) and call_name(x) == "len" or isinstance(x, ast.Compare) and any(isinstance(o, (ast.Lt, ast.LtE, ast.Gt, ast.GtE)) for o in x.ops):
+                            bounded.append((st, t))
+        ctx.instance("R19e", f"{f.file}:{f.ident}", "refuses a value only for its kind, not for its length or magnitude", ok=not bounded, nontrivial=True, line=f.node.lineno)
+        for st, t in bounded[:1]:
+            other = d2a if f is a2d else a2d
+            ctx.report("R19e", f, st, f"{f.name} refuses under `{norm(t, 50)}`",
+                       f"{f.name} refuses values by length/magnitude (`{norm(t, 50)}`) while {other.name} has no such bound: a column that one direction produces "
+                       f"(digit_to_alpha(18278) == 'AAAA') is rejected by the other, so letters and numbers are no longer a bijection")
     # convert_coordinates: rows are 1-based in strings
     cc = repo.func("utils.coordinates:convert_coordinates")
     ok = has(cc.node, "L_ = int(C_[len(A_):]) - 1") and has(cc.node, "O_.split(':', 1)")
@@ -766,6 +782,9 @@ SEEDS = [
          "        y = self._translate_y_from_any(y)\n        # Outside the defined table\n        if y >= self.height:\n            return\n        # Inside the defined table\n        delete_item_in_vault(y, self, _xpath_row_idx, \"_tmap\")",
          "        # Outside the defined table\n        if y >= self.height:\n            return\n        # Inside the defined table\n        delete_item_in_vault(y, self, _xpath_row_idx, \"_tmap\")", "R19d"),
     Seed("digit_to_alpha divides by 25", "fault", "src/odfdo/utils/coordinates.py", "        digit = (digit - 1) // 26", "        digit = (digit - 1) // 25", "R19e"),
+    Seed("alpha_to_digit refuses names longer than three letters", "fault", "src/odfdo/utils/coordinates.py", "    if not alpha.isalpha():\n        raise ValueError(f'column name", "    if not alpha.isalpha() or len(alpha) > 3:\n        raise ValueError(f'column name", "R19e"),
+    Seed("digit_to_alpha refuses numbers above 16383", "fault", "src/odfdo/utils/coordinates.py", "    if not isinstance(digit, int):\n        raise TypeError(", "    if not isinstance(digit, int) or digit > 16383:\n        raise TypeError(", "R19e"),
+    Seed("alpha_to_digit refuses the empty name explicitly", "neutral", "src/odfdo/utils/coordinates.py", "    if not alpha.isalpha():\n        raise ValueError(f'column name", "    if not alpha or not alpha.isalpha():\n        raise ValueError(f'column name"),
     Seed("alpha_to_digit forgets the zero-based shift", "fault", "src/odfdo/utils/coordinates.py", "    return column - 1", "    return column", "R19e"),
     Seed("convert_coordinates keeps rows 1-based", "fault", "src/odfdo/utils/coordinates.py", "            line = int(coord[len(alpha) :]) - 1", "            line = int(coord[len(alpha) :])", "R19e"),
     unparse_seed(_T), unparse_seed(_R), unparse_seed("src/odfdo/utils/coordinates.py"),
